@@ -135,7 +135,7 @@ func genC13(r *sim.Rng, tier string) any {
 			op.Lifetime = uint32([]int{1, 60, 3600, 1 << 31, 4294967295}[r.Intn(5)])
 		}
 		op.Confirm = r.Bool(0.3)
-		op.Pass = []string{"", "pw", "pässwörd with spaces", string([]byte{0, 1, 2, 255})}[r.Intn(4)]
+		op.Pass = hex.EncodeToString([][]byte{{}, []byte("pw"), []byte("pässwörd with spaces"), {0, 1, 2, 255, 0x80, 0xfe}, {0xff}, []byte("a\x00b")}[r.Intn(6)])
 		op.Slot = []string{"9a", "9c", "f9", "", "a-very-long-slot-name", "9ä"}[r.Intn(6)]
 		op.Code = r.Intn(256)
 		raw := append([]byte{[]byte{0, 2, 5, 7, 20, 21, 26, 28, 36, 40, 99, 200, 255}[r.Intn(13)]}, r.Bytes(r.Intn(64))...)
@@ -363,9 +363,9 @@ func sessionC13(t *testing.T, raw json.RawMessage) *sim.Outcome {
 			case "removeall":
 				cerr = cli.RemoveAll()
 			case "lock":
-				cerr = cli.Lock([]byte(op.Pass))
+				cerr = cli.Lock(passBytes(op.Pass))
 			case "unlock":
-				cerr = cli.Unlock([]byte(op.Pass))
+				cerr = cli.Unlock(passBytes(op.Pass))
 			case "signers":
 				gotSigners, cerr = cli.Signers()
 			case "addhardcert":
@@ -474,8 +474,8 @@ func sessionC13(t *testing.T, raw json.RawMessage) *sim.Outcome {
 				bad("key", trunc(c.Blob), trunc(pub.Marshal()))
 			}
 		case "lock", "unlock":
-			if string(c.Data) != op.Pass {
-				bad("passphrase", c.Data, []byte(op.Pass))
+			if !bytes.Equal(c.Data, passBytes(op.Pass)) {
+				bad("passphrase", c.Data, passBytes(op.Pass))
 			}
 		case "addhardcert":
 			if !bytes.Equal(c.Blob, pub.Marshal()) {
@@ -642,6 +642,8 @@ func (slotChecker) checkRealSlots(o *sim.Outcome, i int, tag string, op WOp, p *
 }
 
 func derefKey(k interface{}) interface{} { return k }
+
+func passBytes(h string) []byte { b, _ := hex.DecodeString(h); return b }
 
 // SpecC13 is the exploration spec of property C13.
 var SpecC13 = &sim.Spec{Property: "C13", World: "W", Generate: genC13, Execute: execC13, Shrink: shrinkC13}
